@@ -55,13 +55,27 @@ class Mirror:
 
 def cfg_line(c):
     return "cfg mode=%s limit=%d perip=%d suspend=%d upgrade=%d nts=%d" % (
-        c["mode"], c["limit"], c["perip"], c["suspend"], c["upgrade"], c["nts"])
+        c["mode"], c["limit"], c["perip"], c["suspend"], c["upgrade"], c["nts"]) \
+        + (" listen=%d" % c["listen"] if c.get("listen") else "") + (" pool=%d" % c["pool"] if c.get("pool") else "")
+
+
+ACCEPT_ERRNOS = ["EMFILE", "ENFILE", "ECONNABORTED", "EAGAIN"]
+
+
+def script_addr(cfg, a):
+    """script address -> the address class the configuration can produce: a real listen socket sees 127.0.0.<a>
+    (listen=1) or its IPv4-mapped IPv6 form (listen=2, dual stack: keys 100+a); MHD_add_connection takes anything"""
+    if cfg.get("listen") == 1:
+        return (a % 100) or 9
+    if cfg.get("listen") == 2:
+        return 100 + ((a % 100) or 9)
+    return a
 
 
 def random_cfg(rng, modes):
     c = {"mode": rng.choice(modes), "limit": rng.randint(1, 4), "perip": rng.choice([0, 1, 1, 2, 2, 3]),
          "suspend": rng.choice([0, 1, 1]), "upgrade": rng.choice([0, 1, 1]), "nts": rng.choice([0, 0, 1])}
-    if "-thr" in c["mode"]:
+    if "-thr" in c["mode"] or c["mode"] == "tpc":
         # the daemon thread runs asynchronously: the model cannot tell which operations are legal at a given
         # script line, so no application-side suspend (a stop with a suspended connection is API misuse)
         c["suspend"] = 0; c["nts"] = 0
@@ -84,8 +98,10 @@ def close_everything(m):
     return out
 
 
-def gen_history(rng, name, modes, nops=None):
+def gen_history(rng, name, modes, nops=None, listen=0):
     cfg = random_cfg(rng, modes)
+    if listen:
+        cfg["listen"] = listen
     m = Mirror(cfg)
     L = ["case " + name, cfg_line(cfg), "start"] + RESP_SETUP
     n = nops if nops is not None else rng.randint(6, 26)
@@ -94,8 +110,12 @@ def gen_history(rng, name, modes, nops=None):
     def arrive():
         if m.next >= 22:
             return
-        a = rng.choice([1, 1, 2, 2, 3, 0]) if rng.random() < 0.9 else rng.randint(0, naddr)
+        # 101, 102: the IPv4-mapped IPv6 forms of addresses 1, 2 (keys of their own in the per-address tree)
+        a = rng.choice([1, 1, 2, 2, 3, 0, 101, 101, 102]) if rng.random() < 0.9 else rng.randint(0, naddr)
+        a = script_addr(cfg, a)
         pol = 0 if rng.random() < 0.12 else 1
+        if cfg.get("listen") and rng.random() < 0.25:
+            L.append("accept-fail " + rng.choice(ACCEPT_ERRNOS))
         L.append("arrive %d %d %d" % (m.next, a, pol))
         m.open.append(m.next)
         m.next += 1
@@ -122,7 +142,15 @@ def gen_history(rng, name, modes, nops=None):
             if rid == 2 and rng.random() < 0.7:
                 L.append("hold %d" % c)
                 m.held.append(c)
-            L.append("req %d %s %d" % (c, kind, rid))
+            # interim "102 Processing" replies before the final one (every handler call answers with one)
+            pre = []
+            if rng.random() < 0.3:
+                pre = [rng.choice([4, 4, 1, 1, 2, 3] + m.resps) for _ in range(rng.choice([1, 1, 2, 3]))]
+            if rng.random() < 0.06:
+                kind, rid, pre = "bad", 0, []      # malformed request: the daemon answers with a response of its own
+            L.append(" ".join(["req %d %s %d" % (c, kind, rid)] + [str(x) for x in pre]))
+            if kind == "bad" and c in m.open:
+                m.open.remove(c)
             if kind == "suspend":
                 m.susp.append(c)
             if rid == 3 and c in m.open:
@@ -143,6 +171,11 @@ def gen_history(rng, name, modes, nops=None):
                     m.open.remove(c)
         elif r < 0.86 and m.susp:
             c = rng.choice(m.susp); m.susp.remove(c)
+            if rng.random() < 0.4:
+                # the application queues the response from outside the handler while the connection is suspended
+                if L[-1] != SETTLE:
+                    L.append(SETTLE)
+                L.append("ext-queue %d %d" % (c, rng.choice(m.resps + [1, 4])))
             L.append("resume %d" % c)
         elif r < 0.91 and m.upg:
             c = rng.choice(m.upg); m.upg.remove(c)
@@ -163,7 +196,7 @@ def gen_history(rng, name, modes, nops=None):
         L.append("mark all-closed")
         L.append("query")
         for i in range(cfg["limit"]):
-            L.append("arrive %d %d 1" % (m.next, 10 + i)); m.next += 1
+            L.append("arrive %d %d 1" % (m.next, script_addr(cfg, 10 + i))); m.next += 1
         L.append(SETTLE)
         L.append("mark fresh-batch")
         L.append("query")
@@ -177,7 +210,7 @@ def gen_history(rng, name, modes, nops=None):
         # connections that are still in `new_connections` (thread-safe mode) when the daemon stops
         for _ in range(rng.choice([0, 1, 2, 3])):
             if m.next < 30:
-                L.append("arrive %d %d %d" % (m.next, rng.choice([1, 2, 3, 0]), 1)); m.next += 1
+                L.append("arrive %d %d %d" % (m.next, script_addr(cfg, rng.choice([1, 2, 3, 0])), 1)); m.next += 1
     L.append("stop")
     for rid in (1, 2, 3, 4):
         L.append("resp-drop %d" % rid)
@@ -228,6 +261,138 @@ def gen_stop_with_new(modes):
                         L.append("stop")
                         L += ["resp-drop %d" % r for r in (1, 2, 3, 4)]
                         out.append(L)
+    return out
+
+
+def gen_refsites(modes):
+    """every way a connection takes and drops a response reference, one site per history (x polling mode x
+    thread-safe or not x the application drops its own reference before / after the connection does)"""
+    sites = {
+        "plain": ["req 0 reply 1"],
+        "early": ["req 0 replyc 1"],
+        "i1": ["req 0 reply 1 4"],
+        "i2": ["req 0 reply 1 4 4"],
+        "i3mix": ["req 0 reply 4 1 4 1"],
+        "i_early": ["req 0 replyc 1 4"],
+        "i_same": ["req 0 reply 4 4 4"],
+        "i_big": ["req 0 reply 1 2"],
+        "i_then_big_held": ["hold 0", "req 0 reply 2 4", SETTLE, "resp-drop 2", "resp-drop 4", "cclose 0"],
+        "i_upgrade": ["req 0 upgrade 3 4 1", SETTLE, "resp-drop 3", "up-close 0"],
+        "i_is_upgrade": ["req 0 reply 1 3"],
+        "i_unknown": ["req 0 reply 1 9"],
+        "i_dropped": ["resp-drop 4", "req 0 reply 1 4"],
+        "final_unknown_after_i": ["req 0 reply 9 4"],
+        "upgrade": ["req 0 upgrade 3", SETTLE, "up-close 0"],
+        "upgrade_stop": ["req 0 upgrade 3", SETTLE],
+        "error_reply": ["req 0 bad 0"],
+        "error_reply_2": ["req 0 bad 0", "req 1 bad 0", "req 2 reply 1 4"],
+        "suspend_i": ["req 0 suspend 1 4 4", SETTLE, "resume 0"],
+        "suspend_ext": ["req 0 suspend 1", SETTLE, "ext-queue 0 4", SETTLE, "resume 0"],
+        "suspend_ext_big": ["req 0 suspend 1", SETTLE, "hold 0", "ext-queue 0 2", "resp-drop 2", "resume 0", SETTLE, "cclose 0"],
+        "suspend_ext_refused": ["req 0 suspend 1 4", SETTLE, "ext-queue 0 3", "ext-queue 0 9", "resume 0"],
+        "suspend_ext_twice": ["req 0 suspend 1", SETTLE, "ext-queue 0 4", "ext-queue 0 1", "resume 0"],
+        "shared3": ["hold 0", "hold 1", "hold 2", "req 0 reply 2 4", "req 1 reply 2", "req 2 reply 2 4 4", SETTLE, "resp-drop 2",
+                    "cclose 0", SETTLE, "drain 1", SETTLE, "cclose 2"],
+        "abort_in_body": ["hold 0", "req 0 reply 2 4", SETTLE, "cclose 0"],
+        "keepalive_then_i": ["req 0 reply 1", SETTLE, "req 0 reply 4 1", SETTLE, "req 1 reply 1 4"],
+    }
+    out = []
+    i = 0
+    for mode in modes:
+        for nts in (0, 1):
+            for name, ops in sorted(sites.items()):
+                for early_drop in (0, 1):
+                    cfg = {"mode": mode, "limit": 3, "perip": 2, "suspend": 1, "upgrade": 1, "nts": nts}
+                    L = ["case rs%d_%s" % (i, name), cfg_line(cfg), "start"] + RESP_SETUP
+                    i += 1
+                    L += ["arrive 0 1 1", "arrive 1 101 1", "arrive 2 2 1", SETTLE] + ops + [SETTLE]
+                    drops = ["resp-drop %d" % r for r in (1, 2, 3, 4)]
+                    if early_drop:
+                        L += drops
+                    L += [SETTLE, "resume 0", "up-close 0", SETTLE] + ["drain %d" % c for c in range(3)] \
+                        + ["cclose %d" % c for c in range(3)] + [SETTLE, SETTLE, "mark all-closed", "query", "stop"]
+                    L += drops
+                    out.append(L)
+    return out
+
+
+def gen_abort_before_send(modes):
+    """the client sends its request and goes away before the daemon gets to answer (response queued, then the
+    connection is aborted before / inside the header send).  Whether the handler still runs depends on the
+    polling mode and on what the socket reported last (the EOF may be seen first): oracle + LSan only"""
+    out = []
+    i = 0
+    for mode in modes:
+        for nts in (0, 1):
+            for req in ("req 0 reply 1", "req 0 reply 1 4", "req 0 reply 2 4 4", "req 0 replyc 4", "req 0 upgrade 3 4"):
+                cfg = {"mode": mode, "limit": 2, "perip": 0, "suspend": 1, "upgrade": 1, "nts": nts}
+                L = ["case ab%s%d" % ("e" if mode == "epoll" else "s", i), cfg_line(cfg), "start"] + RESP_SETUP
+                i += 1
+                L += ["arrive 0 1 1", SETTLE, req, "cclose 0", SETTLE, SETTLE, "up-close 0", SETTLE, "mark all-closed", "query", "stop"]
+                L += ["resp-drop %d" % r for r in (1, 2, 3, 4)]
+                out.append(L)
+    return out
+
+
+def gen_listen(rng, modes, n):
+    """a real listen socket: every arrival is a TCP client from 127.0.0.<a>, taken with accept4() by
+    MHD_accept_connection (listen=1) — or seen as an IPv4-mapped IPv6 peer on a dual-stack socket (listen=2) —
+    and accept4() failures (EMFILE, ENFILE, ECONNABORTED, EAGAIN) in between"""
+    out = []
+    for listen in (1, 2):
+        for mode in modes:
+            for nts in (0, 1):
+                for perip in (0, 1, 2):
+                    cfg = {"mode": mode, "limit": 2, "perip": perip, "suspend": 1, "upgrade": 1, "nts": nts, "listen": listen}
+                    L = ["case ln%d" % len(out), cfg_line(cfg), "start"] + RESP_SETUP
+                    nid = 0
+                    for k, e in enumerate(ACCEPT_ERRNOS):
+                        L += ["accept-fail " + e, "arrive %d %d %d" % (nid, script_addr(cfg, 1 + k % 2), 0 if k == 2 else 1)]; nid += 1
+                    L += [SETTLE, "accept-fail EMFILE", "req 0 reply 1 4", SETTLE]
+                    L += ["cclose %d" % c for c in range(nid)] + [SETTLE, SETTLE, "accept-fail ENFILE", "mark all-closed", "query"]
+                    for k in range(cfg["limit"]):
+                        L.append("arrive %d %d 1" % (nid, script_addr(cfg, 10 + k))); nid += 1
+                    L += [SETTLE, "mark fresh-batch", "query", "stop"] + ["resp-drop %d" % r for r in (1, 2, 3, 4)]
+                    out.append(L)
+    for i in range(n):
+        out.append(gen_history(rng, "lr%d" % i, modes, listen=1 + i % 2))
+    return out
+
+
+def gen_threads(rng, n):
+    """real threads: thread per connection and worker pools, arrivals / closes scripted, every check at a
+    quiescent point (after `settle`); thread-creation failures (the k-th pthread_create fails) in the
+    admission path and inside MHD_start_daemon"""
+    out = []
+    for limit, perip in ((2, 0), (3, 2), (1, 1)):
+        for k in (0, 1, 2, 3):
+            cfg = {"mode": "tpc", "limit": limit, "perip": perip, "suspend": 0, "upgrade": 0, "nts": 0}
+            L = ["case tpc%d" % len(out), cfg_line(cfg), "start"] + RESP_SETUP
+            nid = 0
+            for j in range(limit + 2):
+                if k and j == k - 1:
+                    L.append("thread-fail 1")
+                L += ["arrive %d %d 1" % (nid, 1 + j % 2), SETTLE]; nid += 1
+            L += ["thread-fail 0", "req 0 reply 1 4", "req 1 reply 4", SETTLE, "query"]
+            L += ["cclose %d" % c for c in range(nid)] + [SETTLE, SETTLE, "mark all-closed", "query"]
+            for j in range(limit):
+                L += ["arrive %d %d 1" % (nid, 10 + j), SETTLE]; nid += 1
+            L += ["mark fresh-batch", "query", "stop"] + ["resp-drop %d" % r for r in (1, 2, 3, 4)]
+            out.append(L)
+    # MHD_start_daemon itself: the k-th thread cannot be created -> NULL, nothing left behind (LSan, thread count)
+    for mode, pool in (("select-thr", 0), ("select-thr", 3), ("poll-thr", 4), ("epoll-thr", 2), ("tpc", 0)):
+        for k in range(1, (pool or 1) + 1):
+            cfg = {"mode": mode, "limit": 4, "perip": 0, "suspend": 0, "upgrade": 0, "nts": 0, "pool": pool}
+            out.append(["case sf%d" % len(out), cfg_line(cfg), "thread-fail %d" % k, "start", "threads", "stop"])
+    for i in range(n):
+        mode = ("tpc", "select-thr", "poll-thr", "epoll-thr")[i % 4]
+        h = gen_history(rng, "th%d" % i, [mode])
+        if mode != "tpc" and i % 8 >= 4:
+            # a pool picks the worker by its current count: a burst may be refused although the daemon as a whole has
+            # room (not a loss of capacity) - arrivals one at a time, as in gen_pool_family
+            h[1] += " pool=%d" % (2 + i % 3)
+            h = [x for l in h for x in ((l, SETTLE) if l.startswith("arrive ") else (l,))]
+        out.append(h)
     return out
 
 
@@ -317,7 +482,7 @@ def chunks(lines):
     return out, cur
 
 
-IGNORED = ("reader ",)
+IGNORED = ("reader ", "threads ")
 
 
 def canon(chunk):
@@ -442,6 +607,9 @@ class Oracle:
                     miss = [c for c in self.fresh if c not in self.started]
                     if miss:
                         return "capacity not restored: fresh connections %s were not admitted" % miss
+            elif k == "threads":
+                if int(t[1]) != 1:
+                    return "daemon stopped (or failed to start), %s threads are still alive" % (int(t[1]) - 1)
             elif k == "stopped":
                 self.stopped = True
                 miss = sorted(self.arrived - self.fdclosed)
@@ -467,7 +635,8 @@ def shape(s):
 class Spec:
     props_module = "Mhd.Props.C09"
     lean_targets = ["Mhd.Props.C09", "drv_daemon"]
-    required_theorems = ["Mhd.C09.step_inv", "Mhd.C09.run_inv", "Mhd.C09.limits_hold", "Mhd.C09.capacity_restored", "Mhd.C09.close_all_then_round",
+    required_theorems = ["Mhd.C09.interim_replies_balanced", "Mhd.C09.stop_releases_every_response", "Mhd.C09.accept_failure_loses_nothing",
+                         "Mhd.C09.step_inv", "Mhd.C09.run_inv", "Mhd.C09.limits_hold", "Mhd.C09.capacity_restored", "Mhd.C09.close_all_then_round",
                          "Mhd.C09.stop_exactly_once", "Mhd.C09.lifecycle_balance", "Mhd.C09.refcount_refines",
                          "Mhd.C09.free_callback_at_zero", "Mhd.C09.free_callback_exactly_once",
                          "Mhd.C09.pool_split_sum", "Mhd.C09.pool_bound"]
@@ -486,7 +655,7 @@ class Spec:
     def build(self, ctx):
         self.harness = vlib.build_daemon_harness(name="h_limits", src="harness/h_limits.c",
                                                  exclude=("mhd_mono_clock.c", "daemon.c", "memorypool.c"),
-                                                 ldextra=["-Wl,--wrap=malloc,--wrap=calloc"])
+                                                 ldextra=["-Wl,--wrap=malloc,--wrap=calloc", "-ldl"])
         self.driver = vlib.driver_path("drv_daemon")
 
     # -- model-side legality filter ------------------------------------------------
@@ -588,7 +757,8 @@ class Spec:
             # internal-thread modes: the daemon thread runs asynchronously to the script, the model's round
             # structure does not apply — implementation-side oracle only
             # (exception: the `pl_` cases only start a pool and read the workers' limits — deterministic)
-            t = None if (("-thr" in c[1] or "mode=tpc" in c[1]) and not c[0].startswith("case pl_")) \
+            # (the `ab` cases: request + client close in one settle, see gen_abort_before_send)
+            t = None if ((("-thr" in c[1] or "mode=tpc" in c[1]) and not c[0].startswith("case pl_")) or c[0].startswith("case ab")) \
                 else self.translate(c, hper[ci])
             if t is not None:
                 mcases.append(t); idx.append(ci)
@@ -645,7 +815,8 @@ class Spec:
         failures = []
         stats = {"leaks": 0, "aborts": 0, "oracle_only": 0, "accepted": 0, "refused": 0, "alloc_failed": {},
                  "events": {k: 0 for k in ("conn-start", "conn-close", "fd-close", "free-cb", "upgrade", "suspend",
-                                           "resume", "up-close", "policy", "epoll-ctl-failed", "queued", "queue-refused")}}
+                                           "resume", "up-close", "policy", "epoll-ctl-failed", "queued", "queue-refused",
+                                           "accept-failed", "thread-create-failed", "start-failed", "threads")}}
         modes = ["select", "epoll"]
         # detector self-test: LeakSanitizer must be operational in this environment
         o, rc, err = vlib.run_lines(self.harness, ["case a", "leak-test", "case b"])
@@ -668,7 +839,10 @@ class Spec:
                    "arrive 0 1 1", "settle", "stop"])
         nrand = (12000 if thorough else 1500) * (3 if boost else 1)
         rnd = [gen_history(ctx.rng, "r%d" % i, modes) for i in range(nrand)]
-        allc = cases + self.prefilter(exh + af + rnd)
+        # every acquisition / drop site of a response reference; aborted sends; a real listen socket with accept4 failures
+        sites = gen_refsites(modes) + gen_abort_before_send(modes)
+        lsn = gen_listen(ctx.rng, modes, 1500 if thorough else 200)
+        allc = cases + self.prefilter(exh + af + sites + lsn + rnd)
         B = 400
         for i in range(0, len(allc), B):
             self.run_cases(allc[i:i + B], failures, stats)
@@ -678,6 +852,12 @@ class Spec:
         pool = gen_pool_limits() + gen_pool_family()
         self.run_cases(pool, failures, stats)
         allc = allc + pool
+        # real threads (thread per connection, pools), thread-creation failures: oracle at quiescent points, LSan, thread count
+        thq = gen_threads(ctx.rng, 160 if thorough else 24)
+        for i in range(0, len(thq), 40):
+            if len(failures) <= 25:
+                self.run_cases(thq[i:i + 40], failures, stats)
+        allc = allc + thq
         # internal polling thread (thorough tier only): oracle + sanitizers, no model comparison
         thr = []
         if thorough and len(failures) <= 25:
@@ -690,6 +870,27 @@ class Spec:
                     break
             allc = allc + thr
         distinct = len({json.dumps(c[1:]) for c in allc})
+        feat = {"req_with_interim_102": 0, "interim_102_replies": 0, "req_bad_error_reply": 0, "ext_queue_while_suspended": 0,
+                "accept_fail": {}, "thread_fail": 0, "arrivals_ipv6_mapped": 0, "arrivals_listen_socket": 0, "upgrade_after_102": 0,
+                "histories_tpc": 0, "histories_pool": 0, "histories_listen": 0}
+        for c in allc:
+            lsn_c = " listen=" in c[1]
+            feat["histories_tpc"] += "mode=tpc" in c[1]; feat["histories_pool"] += " pool=" in c[1]; feat["histories_listen"] += lsn_c
+            for l in c:
+                w = l.split()
+                if w[0] == "req" and len(w) > 4:
+                    feat["req_with_interim_102"] += 1; feat["interim_102_replies"] += len(w) - 4
+                    feat["upgrade_after_102"] += w[2] == "upgrade"
+                elif w[0] == "req" and w[2] == "bad":
+                    feat["req_bad_error_reply"] += 1
+                elif w[0] == "ext-queue":
+                    feat["ext_queue_while_suspended"] += 1
+                elif w[0] == "accept-fail":
+                    feat["accept_fail"][w[1]] = feat["accept_fail"].get(w[1], 0) + 1
+                elif w[0] == "thread-fail":
+                    feat["thread_fail"] += 1
+                elif w[0] == "arrive":
+                    feat["arrivals_ipv6_mapped"] += 100 <= int(w[2]) < 200; feat["arrivals_listen_socket"] += lsn_c
         cov = {"evaluations": len(allc), "distinct_nontrivial": distinct,
                "rule": "histories run on the real daemon and on the Lean model; distinct = different scripts (cfg + ops); "
                        "bounded-exhaustive: all 3-arrival patterns over {addr1,addr2,policy-refuse} x limits 1..2 x per-IP 0..2 "
@@ -698,13 +899,19 @@ class Spec:
                "samples": [rnd[0][:40], af[3]],
                "threaded_histories_oracle_only": len(thr), "pool_limit_split_cases": len(gen_pool_limits()),
                "pool_histories_oracle_only": len(gen_pool_family()), "exhaustive_histories": len(exh), "allocfail_histories": len(af), "random_histories": len(rnd), "corpus": ncorp,
+               "refsite_histories": len(sites), "listen_histories": len(lsn), "thread_histories_quick": len(thq),
+               "script_features_after_legality_filter": feat,
                "outcomes": stats, "exhaustive": False,
                "correspondence": {"MHD_add_connection/internal_add_connection/new_connection_prepare_/new_connection_process_/"
                                   "new_connections_list_process_/MHD_ip_limit_add/MHD_ip_limit_del/MHD_cleanup_connections/"
                                   "close_all_connections/MHD_stop_daemon/resume_suspended_connections/MHD_destroy_response": "bounded-exhaustive (above) + random %d" % len(rnd),
                                   "MHD_start_daemon_va (split of the limit among pool workers)": "exhaustive: limits 1..12 x pool sizes 1..6 (select-thr) + sample in poll-thr/epoll-thr, white-box read of worker limits vs model",
                                   "MHD_add_connection with a worker pool": "9 fixed histories (3 polling modes x 3 limit/pool pairs), oracle only",
-                                  "MHD_accept_connection (accept4 wrapper and limit gating of the listen socket)": "not exercised; its callee internal_add_connection(external_add=false) is the path run with nts=1"}}
+                                  "MHD_queue_response(102) / FULL_REPLY_SENT 102 branch / transmit_error_response_ / MHD_queue_response on a suspended connection / "
+                                  "MHD_response_execute_upgrade_ after 102": "%d site histories (26 sites x select/epoll x thread-safe or not x early/late drop) + random" % len(sites),
+                                  "MHD_accept_connection (accept4 on a real listen socket, IPv4 and dual stack; accept4 failures EMFILE/ENFILE/ECONNABORTED/EAGAIN)":
+                                      "%d histories compared with the model (accept driven synchronously by the harness); limit gating of the listen fd inside the event loop (at_limit) not exercised" % len(lsn),
+                                  "thread per connection / worker pools / MHD_create_named_thread_ failure (admission and MHD_start_daemon)": "%d histories, oracle + LSan + thread count, no model comparison" % len(thq)}}
         return failures, cov
 
 
@@ -714,7 +921,8 @@ def replay(ctx, path):
     fl = []
     st = {"leaks": 0, "aborts": 0, "oracle_only": 0, "accepted": 0, "refused": 0, "alloc_failed": {},
           "events": {k: 0 for k in ("conn-start", "conn-close", "fd-close", "free-cb", "upgrade", "suspend",
-                                    "resume", "up-close", "policy", "epoll-ctl-failed", "queued", "queue-refused")}}
+                                    "resume", "up-close", "policy", "epoll-ctl-failed", "queued", "queue-refused",
+                                    "accept-failed", "thread-create-failed", "start-failed", "threads")}}
     sp.run_cases([r["input"]], fl, st)
     for f in fl:
         print(f.kind, f.signature, f.detail)
